@@ -623,6 +623,48 @@ func rulesC02(c *Ctx) {
 		c.Pin("updateBatch flush return", flush, 1)
 	})
 
+	c.Rule("R-C02-11", "a peer that has not negotiated a version yet is not cut off for batching: on the newline-delimited transports the version that gates batches starts as 2025-03-26 (an empty version is replaced by that constant before it is normalised), so a pre-initialize batch is read and answered instead of ending the session", func() {
+		su := c.Fn(pM, "ioConn", "sessionUpdated")
+		g := su.Graph()
+		nv := c.FnObj(pM, "", "negotiatedVersion")
+		old := c.Obj(pM, "protocolVersion20250326")
+		calls := su.CallsIn(su.Body, nv, false)
+		c.Need(len(calls) == 1, "ioConn.sessionUpdated: negotiatedVersion call")
+		verV := su.ObjOf(calls[0].Args[0])
+		c.Need(verV != nil, "ioConn.sessionUpdated: version variable")
+		ok := false
+		for _, t := range g.edgesWhere(func(a Atom) bool {
+			x, y, op, isCmp := binaryCmp(a.E)
+			s, isS := su.ConstString(y)
+			return isCmp && op == token.EQL && a.Val && su.ObjOf(x) == verV && isS && s == ""
+		}) {
+			if g.allPathsPass(t, func(v int) bool {
+				for _, w := range Writes(g.Node(v), false) {
+					if su.ObjOf(w.LHS) == verV && w.RHS != nil && su.ObjOf(w.RHS) == old {
+						return true
+					}
+				}
+				return false
+			}) && g.ReachableFrom(t)[g.VertexOf(calls[0])] {
+				ok = true
+			}
+		}
+		c.Check(ok, "ioConn.sessionUpdated:empty-version-is-2025-03-26", su, calls[0], "before negotiatedVersion is applied, an empty version is replaced by protocolVersion20250326 on every path (negotiatedVersion(\"\") would yield the latest legacy version, under which ioConn.Read refuses batches)")
+		// the gate compares with the version this function stored
+		pvF := c.Field(pM, "ioConn", "protocolVersion")
+		okStore := false
+		for _, w := range su.FieldWrites(su.Body, pvF, false) {
+			var resV types.Object
+			if ras, isAs := su.ParentOf(calls[0]).(*ast.AssignStmt); isAs && len(ras.Lhs) == 1 {
+				resV = su.ObjOf(ras.Lhs[0])
+			}
+			if as, isAs := w.(*ast.AssignStmt); isAs && len(as.Rhs) == 1 && resV != nil && su.ObjOf(as.Rhs[0]) == resV && su.heldLocal(w)["ioConn.sessionMu"] && g.ReachableFrom(g.VertexOf(calls[0]))[g.VertexOf(w)] {
+				okStore = true
+			}
+		}
+		c.Check(okStore, "ioConn.sessionUpdated:stores-normalised-version", su, nil, "the normalised version is stored in ioConn.protocolVersion under sessionMu (the field ioConn.Read compares with 2025-06-18)")
+	})
+
 	c.Import("R-C02-9", "a streamable session is not closed by its idle timer while a POST is being served: the response of a slow call still has a connection to be written to", "C11", "R-C11-4", func(k string) bool {
 		return strings.HasPrefix(k, "startPOST") || strings.HasPrefix(k, "endPOST") || strings.HasPrefix(k, "idle-timer")
 	})
